@@ -247,6 +247,9 @@ func ruleC11ProtectionTransitions(c *Ctx) {
 			c.unresolved(name, "access/release")
 			continue
 		}
+		// the counter step may live in a helper that access/release call with the lock held
+		acc = bodyWith(acc, func(i ssa.Instruction) bool { return isCounterStore(i, token.ADD) })
+		rel = bodyWith(rel, func(i ssa.Instruction) bool { return isCounterStore(i, token.SUB) })
 		c.FuncsAnalysed[shortName(acc)] = true
 		c.FuncsAnalysed[shortName(rel)] = true
 		// access: every path entry→increment passes Protect(ReadOnly) or the (accessCounter == 0) false edge
@@ -340,26 +343,30 @@ func ruleC11ProtectionTransitions(c *Ctx) {
 func counterStores(f *ssa.Function, op token.Token) []ssa.Instruction {
 	var out []ssa.Instruction
 	allInstrs(f, func(i ssa.Instruction) {
-		st, ok := i.(*ssa.Store)
-		if !ok {
-			return
+		if isCounterStore(i, op) {
+			out = append(out, i)
 		}
-		if _, fld, isF := fieldAccess(st.Addr); !isF || fld != "accessCounter" {
-			return
-		}
-		b, isB := st.Val.(*ssa.BinOp)
-		if !isB || b.Op != op {
-			return
-		}
-		if _, fld, isF := fieldAccess(b.X); !isF || fld != "accessCounter" {
-			return
-		}
-		if k, isC := constOf(b.Y); !isC || k.ExactString() != "1" {
-			return
-		}
-		out = append(out, i)
 	})
 	return out
+}
+
+func isCounterStore(i ssa.Instruction, op token.Token) bool {
+	st, ok := i.(*ssa.Store)
+	if !ok {
+		return false
+	}
+	if _, fld, isF := fieldAccess(st.Addr); !isF || fld != "accessCounter" {
+		return false
+	}
+	b, isB := st.Val.(*ssa.BinOp)
+	if !isB || b.Op != op {
+		return false
+	}
+	if _, fld, isF := fieldAccess(b.X); !isF || fld != "accessCounter" {
+		return false
+	}
+	k, isC := constOf(b.Y)
+	return isC && k.ExactString() == "1"
 }
 
 func isCounterZeroTest(v ssa.Value) bool {
@@ -411,15 +418,12 @@ func ruleC11CloseWaitsAndOrders(c *Ctx) {
 			return false
 		}
 		nd := 0
-		allInstrs(cl, func(i ssa.Instruction) {
-			if !isDestroy(i) {
-				return
-			}
+		for _, i := range stepSites(cl, isDestroy) {
 			nd++
 			zero := guardedBy(i, true, isCounterZeroTest)
 			st := d.stateAt(i)
 			c.check(zero && st == lsW, name+".Close/destroy-when-idle", u.ipos(i), "destroyed only where accessCounter == 0 with rw write-locked", "the secret's memory is destroyed while readers may still be inside their callback (not guarded by accessCounter == 0 under the lock)")
-		})
+		}
 		if nd == 0 {
 			c.bad(name+".Close/destroy-when-idle", u.pos(cl.Pos()), "Close never destroys the secret")
 		}
@@ -453,7 +457,7 @@ func ruleC11CloseWaitsAndOrders(c *Ctx) {
 		c.check(sawEdge && waitOK, name+".Close/waits", u.pos(cl.Pos()), "readers present → Cond.Wait, then re-test", "with readers present Close does not wait on the condition variable (returns or spins): the memory is freed under a reader or the close is lost")
 		// every decrement followed by Broadcast/Signal (deferred before it, or a call after it on every path)
 		c.FuncsAnalysed[shortName(rel)] = true
-		for _, dec := range counterStores(rel, token.SUB) {
+		for _, dec := range stepSites(rel, func(i ssa.Instruction) bool { return isCounterStore(i, token.SUB) }) {
 			ok := false
 			allInstrs(rel, func(i ssa.Instruction) {
 				if df, isD := i.(*ssa.Defer); isD && instrDominates(i, dec) {
@@ -471,10 +475,7 @@ func ruleC11CloseWaitsAndOrders(c *Ctx) {
 		}
 		// access refuses closing/closed before Protect
 		c.FuncsAnalysed[shortName(acc)] = true
-		allInstrs(acc, func(i ssa.Instruction) {
-			if mcOp(i) != "Protect" {
-				return
-			}
+		for _, i := range stepSites(acc, func(i ssa.Instruction) bool { return mcOp(i) == "Protect" }) {
 			notClosing := guardedBy(i, false, func(v ssa.Value) bool { _, fld, ok := fieldAccess(v); return ok && fld == "closing" })
 			var notClosed bool
 			if be.pkg == pkgProt {
@@ -486,7 +487,7 @@ func ruleC11CloseWaitsAndOrders(c *Ctx) {
 				})
 			}
 			c.check(notClosing && notClosed, name+".access/refuses-closed", u.ipos(i), "Protect only where the secret is neither closing nor closed", "access changes page protection of a secret that is closing or closed (freed pages: fault instead of an error)")
-		})
+		}
 	}
 	// protectedmemory close(): ordering
 	if f := u.Method(pkgProt, "secretInternal", "close"); f == nil {
